@@ -67,7 +67,8 @@ typedef struct {
 	nni_mtx      m;
 } push_mirror;
 
-static bool wb_ok;
+static bool wb_ok;        // mirror fits and lists may be walked (ASan only)
+static bool wb_struct_ok; // mirror fits: wq.lmq_len / lmq_cap may be read under the lock
 
 static push_mirror *
 wb_get(nng_socket s)
@@ -112,7 +113,7 @@ wb_validate(void)
 {
 	nng_socket   s;
 	push_mirror *pm;
-	wb_ok = false;
+	wb_ok = wb_struct_ok = false;
 	if (nng_push0_open(&s) != 0) {
 		return;
 	}
@@ -128,7 +129,8 @@ wb_validate(void)
 		if (ok && nng_socket_set_int(s, NNG_OPT_SENDBUF, 7) == 0) {
 			ok = pm->wq.lmq_cap == 7 && pm->wq.lmq_len == 0;
 		}
-		wb_ok = ok && WB_AVAILABLE;
+		wb_struct_ok = ok;
+		wb_ok        = ok && WB_AVAILABLE;
 	}
 	nng_socket_close(s);
 	if (!wb_ok) {
@@ -250,10 +252,10 @@ static const char *ph_names[PH_NKINDS] = { "steady", "grow", "arrive", "depart-s
 // kinds in which a connection goes away while messages may be in flight
 static const bool ph_lossy_kind[PH_NKINDS] = { false, false, false, true, true, true, true };
 
-enum { SS_BLOCK = 0, SS_NONBLOCK, SS_AIO, SS_AIO_SHORT, SS_N };
-static const char *ss_names[SS_N] = { "block", "nonblock", "aio", "aio-short" };
-enum { RS_TIMED = 0, RS_NONBLOCK, RS_AIO, RS_N };
-static const char *rs_names[RS_N] = { "timed", "nonblock", "aio" };
+enum { SS_BLOCK = 0, SS_NONBLOCK, SS_AIO, SS_AIO_SHORT, SS_WINDOW, SS_N };
+static const char *ss_names[SS_N] = { "block", "nonblock", "aio", "aio-short", "aio-window" };
+enum { RS_TIMED = 0, RS_NONBLOCK, RS_AIO, RS_RING, RS_N };
+static const char *rs_names[RS_N] = { "timed", "nonblock", "aio", "aio-ring" };
 
 typedef struct {
 	uint32_t tag;
@@ -268,6 +270,8 @@ typedef struct {
 	pthread_t    th;
 	bool         opened, started, closed;
 	int          style;
+	int          ring;          // RS_RING: receives kept outstanding at once
+	long         ring_multi;    // completions while another receive of the ring was pending
 	int          slow_permille; // probability of a pause after a receive
 	rrec        *recs;
 	size_t       n, cap;
@@ -291,6 +295,8 @@ typedef struct {
 	uint8_t  *phase; // per seq: phase in which it was sent
 	long      quota; // for the current phase
 	long      eagain, timedout, giveup, attached_ok;
+	int       window;      // SS_WINDOW: sends kept outstanding at once
+	long      win_overlap; // submissions made while an earlier send of the window was pending
 	pthread_t th;
 	vf_rng    rng;
 } sender_t;
@@ -323,16 +329,102 @@ static struct {
 	_Atomic int  sampler_stop;
 	long        exp_adds, exp_rems; // planned, PUSH side aggregate
 	long        unplanned;
+	long        rems_seen[MAXPUSH];          // removals (incl. aborted pipes) accounted so far
+	long        rems_ph[MAXPHASE][MAXPUSH];  // removals on a PUSH socket attributed to a phase
+	bool        raw_push, raw_pull;
+	_Atomic int gate, parked; // senders park (outside any send call) while the gate is shut
 	vf_rng      rng;
 } C;
 
 #define TAG(salt, phase, sid) ((((salt) & 0xfffu) << 12) | (((uint32_t) (phase) & 0xf) << 8) | ((uint32_t) (sid) & 0xff))
+
+static void
+record_msg(puller_t *q, nng_msg *m)
+{
+	uint32_t tag = 0;
+	uint64_t seq = 0;
+	if (vf_body_check(nng_msg_body(m), nng_msg_len(m), &tag, &seq) != 0) {
+		q->corrupt++;
+	} else {
+		if (q->n == q->cap) {
+			q->cap  = q->cap ? q->cap * 2 : 4096;
+			q->recs = realloc(q->recs, q->cap * sizeof(rrec));
+			if (q->recs == NULL) vf_harness_fail("oom");
+		}
+		q->recs[q->n].tag  = tag;
+		q->recs[q->n].seq  = seq;
+		q->recs[q->n].pipe = (uint32_t) nng_pipe_id(nng_msg_get_pipe(m));
+		q->n++;
+		if ((tag >> 12) == (C.salt & 0xfffu)) {
+			atomic_fetch_add(&C.ph_recv[(tag >> 8) & 0xf], 1);
+		}
+	}
+	nng_msg_free(m);
+}
+
+// RS_RING: 2-4 receives outstanding on the PULL socket at once (its rq holds
+// several waiters; timeouts remove waiters from the middle).  Which of the
+// outstanding receives gets which message is not observable from outside, so
+// a ring puller is exempt from the order clause (everything else applies).
+static void
+receiver_ring(puller_t *q)
+{
+	nng_aio *a[4];
+	int      n = q->ring;
+	for (int j = 0; j < n; j++) {
+		if (nng_aio_alloc(&a[j], NULL, NULL) != 0) vf_harness_fail("aio alloc");
+		nng_aio_set_timeout(a[j], 15);
+		nng_socket_recv(q->s, a[j]);
+	}
+	for (int j = 0;; j = (j + 1) % n) {
+		if (atomic_load(&q->stop)) break;
+		nng_aio_wait(a[j]);
+		int rv = nng_aio_result(a[j]);
+		if (rv == 0) {
+			nng_msg *m = nng_aio_get_msg(a[j]);
+			nng_aio_set_msg(a[j], NULL);
+			for (int k = 0; k < n; k++) {
+				if (k != j && nng_aio_busy(a[k])) {
+					q->ring_multi++;
+					break;
+				}
+			}
+			record_msg(q, m);
+			if (q->slow_permille && vf_below(&q->rng, 1000) < (uint32_t) q->slow_permille) {
+				vf_usleep((int) vf_range(&q->rng, 20, 400));
+			}
+		} else if (rv == NNG_ETIMEDOUT) {
+			atomic_fetch_add(&q->idle, 1);
+		} else if (rv == NNG_ECLOSED) {
+			break;
+		} else {
+			q->odd_rv = rv;
+			vf_usleep(200);
+		}
+		nng_aio_set_timeout(a[j], 15);
+		nng_socket_recv(q->s, a[j]);
+	}
+	// stop: a receive that completed with a message must not be dropped
+	for (int j = 0; j < n; j++) {
+		nng_aio_cancel(a[j]);
+		nng_aio_wait(a[j]);
+		if (nng_aio_result(a[j]) == 0 && nng_aio_get_msg(a[j]) != NULL) {
+			record_msg(q, nng_aio_get_msg(a[j]));
+			nng_aio_set_msg(a[j], NULL);
+		}
+		nng_aio_free(a[j]);
+	}
+}
 
 static void *
 receiver_main(void *arg)
 {
 	puller_t *q   = arg;
 	nng_aio  *aio = NULL;
+	if (q->style == RS_RING) {
+		receiver_ring(q);
+		return NULL;
+	}
 	if (q->style == RS_AIO && nng_aio_alloc(&aio, NULL, NULL) != 0) {
 		vf_harness_fail("aio alloc");
 	}
@@ -359,25 +451,7 @@ receiver_main(void *arg)
 			break;
 		}
 		if (rv == 0) {
-			uint32_t tag = 0;
-			uint64_t seq = 0;
-			if (vf_body_check(nng_msg_body(m), nng_msg_len(m), &tag, &seq) != 0) {
-				q->corrupt++;
-			} else {
-				if (q->n == q->cap) {
-					q->cap  = q->cap ? q->cap * 2 : 4096;
-					q->recs = realloc(q->recs, q->cap * sizeof(rrec));
-					if (q->recs == NULL) vf_harness_fail("oom");
-				}
-				q->recs[q->n].tag  = tag;
-				q->recs[q->n].seq  = seq;
-				q->recs[q->n].pipe = (uint32_t) nng_pipe_id(nng_msg_get_pipe(m));
-				q->n++;
-				if ((tag >> 12) == (C.salt & 0xfffu)) {
-					atomic_fetch_add(&C.ph_recv[(tag >> 8) & 0xf], 1);
-				}
-			}
-			nng_msg_free(m);
+			record_msg(q, m);
 			if (q->slow_permille && vf_below(&q->rng, 1000) < (uint32_t) q->slow_permille) {
 				vf_usleep((int) vf_range(&q->rng, 20, 400));
 			}
@@ -397,6 +471,96 @@ receiver_main(void *arg)
 	return NULL;
 }
 
+// Senders park here, outside any send call, while the main thread shrinks a
+// send buffer: with every sender parked the number of buffered messages can
+// only go down (a waiting sender's message enters the buffer only after
+// another one left it), so "shrink to at least what is queued now" cannot
+// discard anything.
+static void
+sender_gate(void)
+{
+	if (atomic_load(&C.gate)) {
+		atomic_fetch_add(&C.parked, 1);
+		while (atomic_load(&C.gate)) vf_usleep(50);
+		atomic_fetch_sub(&C.parked, 1);
+	}
+}
+
+// SS_WINDOW: 2-4 sends outstanding at once, submitted in sequence-number order
+// by this one thread (each nng_socket_send call returns before the next is
+// made).  Order on one connection is demanded in that submission order.  A
+// send that fails is not repeated, so sequence numbers still only go up.
+static void
+sender_window(sender_t *s)
+{
+	nng_socket sock = C.push[s->push];
+	int        ph   = C.cur_phase;
+	uint32_t   tag  = TAG(C.salt, ph, s->id);
+	int        n    = s->window;
+	nng_aio   *a[4];
+	nng_msg   *mm[4];
+	uint64_t   sq[4];
+	bool       out[4] = { false, false, false, false };
+	long       submitted = 0;
+	for (int j = 0; j < n; j++) {
+		if (nng_aio_alloc(&a[j], NULL, NULL) != 0) vf_harness_fail("aio alloc");
+	}
+	for (int j = 0;; j = (j + 1) % n) {
+		if (out[j]) {
+			nng_aio_wait(a[j]);
+			int rv = nng_aio_result(a[j]);
+			out[j] = false;
+			if (rv == 0) {
+				s->st[sq[j]] = 1;
+				atomic_fetch_add(&C.ph_sent[ph], 1);
+			} else {
+				if (nng_aio_get_msg(a[j]) != mm[j]) {
+					vf_violation("C06/backpressure/failed-send-took-message/flow", "aio send (window) failed with %s but nng_aio_get_msg returned %p, not the submitted message", ename(rv), (void *) nng_aio_get_msg(a[j]));
+				} else {
+					s->attached_ok++;
+					nng_msg_free(mm[j]);
+				}
+				if (rv == NNG_ETIMEDOUT) {
+					s->timedout++;
+					if (!atomic_exchange(&long_block_seen, 1)) vf_stat("send_blocked_10s", 1);
+				} else {
+					vf_violation("C06/backpressure/send-error", "send failed with %s (%d): neither accepted, EAGAIN nor ETIMEDOUT; style %s", nng_strerror(rv), rv, ss_names[s->style]);
+				}
+				s->st[sq[j]] = 2;
+			}
+			nng_aio_set_msg(a[j], NULL);
+			s->phase[sq[j]] = (uint8_t) ph;
+		}
+		bool more = submitted < s->quota && s->next_seq < s->cap && !(submitted >= 20 && atomic_load(&long_block_seen));
+		if (!more) {
+			bool any = false;
+			for (int k = 0; k < n; k++) any = any || out[k];
+			if (!any) break;
+			continue;
+		}
+		sender_gate();
+		size_t len = VF_BODY_MIN + vf_below(&s->rng, 40);
+		if (nng_msg_alloc(&mm[j], len) != 0) vf_harness_fail("msg alloc");
+		sq[j] = s->next_seq++;
+		vf_body_make(nng_msg_body(mm[j]), len, tag, sq[j]);
+		for (int k = 0; k < n; k++) {
+			if (out[k] && nng_aio_busy(a[k])) {
+				s->win_overlap++;
+				break;
+			}
+		}
+		nng_aio_set_timeout(a[j], atomic_load(&long_block_seen) ? 300 : 10000);
+		nng_aio_set_msg(a[j], mm[j]);
+		nng_socket_send(sock, a[j]);
+		out[j] = true;
+		submitted++;
+		if (s->pause_permille && vf_below(&s->rng, 1000) < (uint32_t) s->pause_permille) {
+			vf_usleep((int) vf_range(&s->rng, 10, 300));
+		}
+	}
+	for (int j = 0; j < n; j++) nng_aio_free(a[j]);
+}
+
 static void *
 sender_main(void *arg)
 {
@@ -405,10 +569,16 @@ sender_main(void *arg)
 	nng_aio   *aio  = NULL;
 	int        ph   = C.cur_phase;
 	uint32_t   tag  = TAG(C.salt, ph, s->id);
+	if (s->style == SS_WINDOW) {
+		sender_window(s);
+		atomic_fetch_sub(&C.senders_running, 1);
+		return NULL;
+	}
 	if (s->style >= SS_AIO && nng_aio_alloc(&aio, NULL, NULL) != 0) {
 		vf_harness_fail("aio alloc");
 	}
 	for (long i = 0; i < s->quota && s->next_seq < s->cap; i++) {
+		sender_gate();
 		// after a 10 s stall (never seen on a healthy library) the rest of
 		// the run is cut short: every further stall would cost 300 ms
 		if (i >= 20 && atomic_load(&long_block_seen)) break;
@@ -603,12 +773,13 @@ add_puller(bool start_thread)
 	int       rv;
 	memset(q, 0, sizeof(*q));
 	q->slot = C.nslots;
-	if ((rv = nng_pull0_open(&q->s)) != 0) vf_harness_fail("pull open: %s", nng_strerror(rv));
+	if ((rv = (C.raw_pull ? nng_pull0_open_raw : nng_pull0_open)(&q->s)) != 0) vf_harness_fail("pull open: %s", nng_strerror(rv));
 	sock_common(q->s);
 	nng_socket_set_ms(q->s, NNG_OPT_RECVTIMEO, 15);
 	tracker_init(&q->tr, q->s);
 	vf_rng_seed(&q->rng, vf_rand(&C.rng), 77);
 	q->style         = (int) vf_below(&C.rng, RS_N);
+	q->ring          = (int) vf_range(&C.rng, 2, 4);
 	q->slow_permille = vf_chance(&C.rng, 1, 3) ? (int) vf_range(&C.rng, 5, 120) : 0;
 	q->opened        = true;
 	C.nslots++;
@@ -639,16 +810,18 @@ static void
 close_puller(int slot)
 {
 	puller_t *q = &C.pull[slot];
-	// The receiver is stopped first and the socket closed afterwards (with
-	// whatever is queued in it or on its way to it).  Closing the socket
-	// under a receiver that keeps calling receive is not done here: a
-	// receive submitted while nng_socket_close runs (after the protocol's
-	// close hook drained the waiters, before the socket id is retired) is
-	// queued on a socket that is then destroyed - it never completes, or its
-	// timeout later calls pull0_cancel on the destroyed socket.  That is a
-	// library defect outside this property; mode "flowx" keeps the racy
-	// order for reproduction.
-	if (q->started && !racy_close) {
+	// Two orders.  Mostly the receiver is stopped first and the socket closed
+	// afterwards (with whatever is queued in it or on its way to it).  A
+	// NONBLOCK receiver is, half of the time, left running and the socket
+	// closed under it while it keeps calling receive (the "receive submitted
+	// while nng_socket_close runs stays pending for ever" defect this used
+	// to hit is fixed, b12345d).  Receivers with timeouts are never closed
+	// under (except in mode "flowx"): a receive timeout expiring exactly then
+	// runs into the expire loop's stale-cancel window, a known finding that
+	// is not this property's and whose sanitizer keys vary.
+	bool racy = racy_close || (q->style == RS_NONBLOCK && vf_chance(&C.rng, 1, 2));
+	if (racy && q->started) vf_stat("puller_closed_under_running_receiver", 1);
+	if (q->started && !racy) {
 		atomic_store(&q->stop, 1);
 		pthread_join(q->th, NULL);
 		q->started = false;
@@ -768,7 +941,10 @@ check_case(const char *topo)
 	// received-count per (sender, seq)
 	uint16_t *cnt[MAXSEND];
 	long      n_recv = 0, n_ok = 0, n_fail = 0, lost_allowed = 0, n_order = 0;
+	long      lost_pp[MAXPHASE][MAXPUSH], sent_pp[MAXPHASE][MAXPUSH];
 	char      key[160];
+	memset(lost_pp, 0, sizeof(lost_pp));
+	memset(sent_pp, 0, sizeof(sent_pp));
 	for (int k = 0; k < C.nsend; k++) {
 		cnt[k] = calloc(C.snd[k].cap + 1, sizeof(uint16_t));
 		if (!cnt[k]) vf_harness_fail("oom");
@@ -799,7 +975,9 @@ check_case(const char *topo)
 				continue;
 			}
 			if (cnt[sid][r->seq] < 0xffff) cnt[sid][r->seq]++;
-			// order on one connection
+			// order on one connection (not observable through several
+			// receives outstanding at once)
+			if (q->style == RS_RING) continue;
 			int o;
 			for (o = 0; o < nord; o++) {
 				if (ord[o].pipe == r->pipe && ord[o].sid == sid) break;
@@ -833,9 +1011,11 @@ check_case(const char *topo)
 				snprintf(key, sizeof(key), "C06/backpressure/failed-send-delivered/%s", ss_names[s->style]);
 				vf_violation(key, "%s: message (sender %d, seq %llu) whose send failed for good (message kept by the caller) was nevertheless received", topo, k, (unsigned long long) q);
 			}
+			if (s->st[q] == 1) sent_pp[ph][s->push]++;
 			if (cnt[k][q] == 0 && s->st[q] == 1) {
 				if (C.lossy[ph]) {
 					lost_allowed++;
+					lost_pp[ph][s->push]++;
 				} else {
 					snprintf(key, sizeof(key), "C06/lost/%s.%s", vf_tran_names[C.tran], ph_names[C.kinds[ph]]);
 					vf_violation(key, "%s: message (sender %d style %s, seq %llu) accepted by send in loss-free phase %d (%s) was never received although every connection stayed up", topo, k, ss_names[s->style], (unsigned long long) q, ph, ph_names[C.kinds[ph]]);
@@ -844,11 +1024,82 @@ check_case(const char *topo)
 		}
 		free(cnt[k]);
 	}
+	// Phases with departures: only what was bound to a connection that went
+	// away may be missing.  (a) A PUSH socket none of whose pipes was removed
+	// in the phase must not have lost anything.  (b) inproc has no kernel
+	// buffering: per removed pipe at most the message in the PUSH pipe's send
+	// aio and the one parked in (or on its way up through) the PULL pipe can
+	// be bound to it.
+	for (int ph = 0; ph < C.nphase; ph++) {
+		if (!C.lossy[ph]) continue;
+		for (int i = 0; i < C.npush; i++) {
+			long L = lost_pp[ph][i], R = C.rems_ph[ph][i];
+			if (R == 0) {
+				vf_stat("departure_phase_pushers_without_removal", 1);
+				vf_stat("judged_strictly_in_departure_phases", sent_pp[ph][i]);
+				if (L > 0) {
+					snprintf(key, sizeof(key), "C06/lost/other-connection/%s.%s", vf_tran_names[C.tran], ph_names[C.kinds[ph]]);
+					vf_violation(key, "%s: phase %d (%s): PUSH socket %d lost %ld accepted messages although none of its pipes was removed in this phase (pipes of other PUSH sockets departed)", topo, ph, ph_names[C.kinds[ph]], i, L);
+				}
+				continue;
+			}
+			if (C.tran == VF_T_INPROC) {
+				vf_stat("inproc_departures_bounded", R);
+				vf_stat_max("max_lost_per_removed_pipe_inproc", (L + R - 1) / R);
+				if (L > 0) vf_stat("inproc_departures_with_loss", 1);
+				if (L > 2 * R) {
+					snprintf(key, sizeof(key), "C06/lost/more-than-in-flight/inproc.%s", ph_names[C.kinds[ph]]);
+					vf_violation(key, "%s: phase %d (%s): PUSH socket %d lost %ld accepted messages but only %ld of its pipes were removed (inproc: at most 2 messages can be bound to a pipe)", topo, ph, ph_names[C.kinds[ph]], i, L, R);
+				}
+			}
+		}
+	}
 	vf_stat("received", n_recv);
 	vf_stat("sent_ok", n_ok);
 	vf_stat("sends_failed_for_good", n_fail);
 	vf_stat("lost_in_departure_phases", lost_allowed);
 	vf_stat("order_checked", n_order);
+}
+
+// Shrink the send buffer of PUSH socket i mid-flight to a depth that still
+// holds everything queued in it (loss-free by any reading of the property;
+// shrinking below the fill is C18's subject).  All senders are parked outside
+// of send calls first, so the fill read under the socket lock can only go
+// down until the option is set.
+static bool
+try_shrink(int i)
+{
+	push_mirror *pm = C.pm[i];
+	bool         done = false;
+	if (pm == NULL) return false;
+	atomic_store(&C.gate, 1);
+	uint64_t end = vf_now_ns() + 15ull * 1000000000ull;
+	while (atomic_load(&C.parked) < atomic_load(&C.senders_running)) {
+		if (vf_now_ns() > end) break; // a sender sits in a long blocking send
+		vf_usleep(100);
+	}
+	if (atomic_load(&C.parked) >= atomic_load(&C.senders_running)) {
+		int cap, len;
+		nni_mtx_lock(&pm->m);
+		cap = (int) pm->wq.lmq_cap;
+		len = (int) pm->wq.lmq_len;
+		nni_mtx_unlock(&pm->m);
+		if (len < cap) {
+			int ncap = len + (int) vf_below(&C.rng, (uint32_t) (cap - len));
+			int rv   = nng_socket_set_int(C.push[i], NNG_OPT_SENDBUF, ncap);
+			if (rv != 0) vf_harness_fail("sendbuf shrink: %s", nng_strerror(rv));
+			C.depth[i] = ncap;
+			vf_stat("shrinks_midflight", 1);
+			if (len > 0) vf_stat("shrinks_with_messages_queued", 1);
+			if (atomic_load(&C.senders_running) > 0) vf_stat("shrinks_with_senders_parked", 1);
+			vf_class("shrink/%s/from%d/to%d/queued%d", vf_tran_names[C.tran], cap > 12 ? 12 : cap, ncap > 12 ? 12 : ncap, len > 12 ? 12 : len);
+			done = true;
+		}
+	} else {
+		vf_stat("shrink_gate_timeouts", 1);
+	}
+	atomic_store(&C.gate, 0);
+	return done;
 }
 
 static void
@@ -863,7 +1114,10 @@ run_flow_case(long idx)
 	C.idx = idx;
 	vf_rng_seed(r, vf_seed, (uint64_t) idx);
 	C.salt         = (uint32_t) (vf_rand(r) & 0xfff);
-	C.tran         = (int) vf_below(r, 3); // inproc, ipc, tcp
+	{
+		uint32_t x = vf_below(r, 10); // inproc, ipc, tcp 3/10 each, ws 1/10
+		C.tran     = x >= 9 ? VF_T_WS : (int) (x / 3);
+	}
 	C.npush        = (int) vf_range(r, 1, MAXPUSH);
 	C.npull0       = (int) vf_range(r, 0, 4);
 	C.push_listens = vf_chance(r, 1, 2);
@@ -882,6 +1136,8 @@ run_flow_case(long idx)
 	int jit_pm = vf_chance(r, 1, 5) ? 0 : (int) vf_range(r, 2, 40);
 	int jit_us = (int) vf_range(r, 0, 150);
 	int target = (int) vf_below(r, 5);
+	C.raw_push = vf_chance(r, 1, 8);
+	C.raw_pull = vf_chance(r, 1, 8);
 
 	snprintf(topo, sizeof(topo), "%s %dpush(%s)x%dpull spp=%d", vf_tran_names[C.tran], C.npush, C.push_listens ? "listen" : "dial", C.npull0, spp);
 	vf_case_begin(idx, "flow %s phases=%d msgs=%ld jitter=%d/%dus target=%d", topo, C.nphase, total, jit_pm, jit_us, target);
@@ -897,7 +1153,7 @@ run_flow_case(long idx)
 	}
 
 	for (int i = 0; i < C.npush; i++) {
-		if ((rv = nng_push0_open(&C.push[i])) != 0) vf_harness_fail("push open: %s", nng_strerror(rv));
+		if ((rv = (C.raw_push ? nng_push0_open_raw : nng_push0_open)(&C.push[i])) != 0) vf_harness_fail("push open: %s", nng_strerror(rv));
 		sock_common(C.push[i]);
 		nng_socket_set_ms(C.push[i], NNG_OPT_SENDTIMEO, atomic_load(&long_block_seen) ? 300 : 10000);
 		C.depth[i] = (int) vf_range(r, 0, 8);
@@ -905,7 +1161,7 @@ run_flow_case(long idx)
 			if ((rv = nng_socket_set_int(C.push[i], NNG_OPT_SENDBUF, C.depth[i])) != 0) vf_harness_fail("sendbuf: %s", nng_strerror(rv));
 		}
 		tracker_init(&C.ptr[i], C.push[i]);
-		C.pm[i] = wb_ok ? wb_get(C.push[i]) : NULL;
+		C.pm[i] = wb_struct_ok ? wb_get(C.push[i]) : NULL;
 		if (C.push_listens) {
 			char url[128];
 			vf_url(C.tran, url, sizeof(url));
@@ -921,6 +1177,7 @@ run_flow_case(long idx)
 		s->id       = k;
 		s->push     = k % C.npush;
 		s->style    = (int) vf_below(r, SS_N);
+		s->window   = (int) vf_range(r, 2, 4);
 		s->pause_permille = vf_chance(r, 1, 3) ? (int) vf_range(r, 5, 100) : 0;
 		s->cap      = (uint64_t) (total / C.nsend + 2) * 2;
 		s->st       = calloc(s->cap, 1);
@@ -956,6 +1213,10 @@ run_flow_case(long idx)
 			for (int g = 1; g <= 4; g++) {
 				progress(ph, phq * g / 5, 100);
 				int i = (int) vf_below(r, (uint32_t) C.npush);
+				if ((g & 1) == 0 && try_shrink(i)) {
+					ev++;
+					continue;
+				}
 				C.depth[i] += (int) vf_range(r, 1, 3);
 				if ((rv = nng_socket_set_int(C.push[i], NNG_OPT_SENDBUF, C.depth[i])) != 0) vf_harness_fail("sendbuf grow: %s", nng_strerror(rv));
 				ev++;
@@ -1043,6 +1304,13 @@ run_flow_case(long idx)
 			snprintf(key, sizeof(key), "C06/lost/undelivered-at-quiescence/%s.%s", vf_tran_names[C.tran], ph_names[kind]);
 			vf_violation(key, "%s: phase %d (%s): %ld messages accepted, %ld received, no progress for 10 s with idle library and waiting receivers, every connection up", topo, ph, ph_names[kind], atomic_load(&C.ph_sent[ph]), atomic_load(&C.ph_recv[ph]));
 		}
+		// pipe removals seen on each PUSH socket since the previous phase
+		// ended belong to this phase
+		for (int i = 0; i < C.npush; i++) {
+			long now = atomic_load(&C.ptr[i].rems) + atomic_load(&C.ptr[i].aborted);
+			C.rems_ph[ph][i] = now - C.rems_seen[i];
+			C.rems_seen[i]   = now;
+		}
 		vf_stat(C.lossy[ph] ? "departure_phases" : "lossfree_phases", 1);
 		vf_class("phase/%s/%s/p%dq%d/%s", vf_tran_names[C.tran], ph_names[kind], C.npush, live_pullers(), C.lossy[ph] ? (atomic_load(&C.ph_recv[ph]) < atomic_load(&C.ph_sent[ph]) ? "some-lost" : "all-arrived") : "conserved");
 		vf_watchdog(180);
@@ -1070,12 +1338,17 @@ run_flow_case(long idx)
 	for (int k = 0; k < C.nsend; k++) {
 		sender_t *s = &C.snd[k];
 		eag += s->eagain; tmo += s->timedout; giveup += s->giveup; att += s->attached_ok;
+		if (s->style == SS_WINDOW) vf_stat("window_sends_submitted_behind_pending_send", s->win_overlap);
 		vf_class("sender/%s/%s/%s%s", vf_tran_names[C.tran], ss_names[s->style], s->eagain ? "eagain" : "", s->timedout ? "timedout" : "");
 		free(s->st);
 		free(s->phase);
 	}
 	for (int j = 0; j < C.nslots; j++) {
 		vf_class("receiver/%s/%s/%s", vf_tran_names[C.tran], rs_names[C.pull[j].style], C.pull[j].n ? "got" : "none");
+		if (C.pull[j].style == RS_RING) {
+			vf_stat("ring_received", (long) C.pull[j].n);
+			vf_stat("ring_received_with_other_receive_pending", C.pull[j].ring_multi);
+		}
 		free(C.pull[j].recs);
 	}
 	vf_stat("send_eagain", eag);
@@ -1084,7 +1357,9 @@ run_flow_case(long idx)
 	vf_stat("send_giveups", giveup);
 	vf_stat("unplanned_departures", C.unplanned);
 	vf_stat("cases", 1);
-	vf_class("topo/%s/%dx%d/%s", vf_tran_names[C.tran], C.npush, C.npull0, C.push_listens ? "push-listens" : "pull-listens");
+	vf_class("topo/%s/%dx%d/%s%s%s", vf_tran_names[C.tran], C.npush, C.npull0, C.push_listens ? "push-listens" : "pull-listens", C.raw_push ? "/raw-push" : "", C.raw_pull ? "/raw-pull" : "");
+	if (C.raw_push || C.raw_pull) vf_stat("cases_with_raw_sockets", 1);
+	if (C.tran == VF_T_WS) vf_stat("cases_over_ws", 1);
 	if ((idx & 3) == 0) {
 		vf_sample("{\"mode\":\"flow\",\"topology\":\"%s\",\"phases\":%d,\"first_kind\":\"%s\",\"sent_ok\":%ld,\"received\":%ld,\"eagain\":%ld,\"timedout\":%ld}", topo, C.nphase, ph_names[C.kinds[0]],
 		    atomic_load(&C.ph_sent[0]) + atomic_load(&C.ph_sent[1]) + atomic_load(&C.ph_sent[2]) + atomic_load(&C.ph_sent[3]) + atomic_load(&C.ph_sent[4]),
@@ -1277,7 +1552,7 @@ run_bp_case(long idx)
 {
 	vf_rng r;
 	vf_rng_seed(&r, vf_seed, (uint64_t) idx);
-	int  tran    = (int) vf_below(&r, 3);
+	int  tran    = (int) vf_below(&r, 4); // inproc, ipc, tcp, ws
 	int  nidle   = vf_chance(&r, 1, 3) ? (int) vf_range(&r, 1, 2) : 0;
 	bool incr    = vf_chance(&r, 1, 3);
 	int  nblock  = (int) vf_range(&r, 1, 3);
@@ -1314,7 +1589,20 @@ run_bp_case(long idx)
 			// both pipes established on the PUSH side
 			for (int w = 0; w < 5000 && vf_pipe_count(b->push) < nidle; w++) vf_msleep(1);
 		}
-		accepted[d] = bp_fill(b, &r, d + 64);
+		// shrink-to-fit: a deeper buffer holding exactly d messages is shrunk
+		// to depth d (nothing queued beyond the new depth, so nothing may
+		// be discarded); from then on it must behave like a buffer that was
+		// created with depth d
+		int pre = 0;
+		if (!incr && nidle == 0 && d > 0 && vf_chance(&r, 1, 2)) {
+			int g = (int) vf_range(&r, 1, 4);
+			if ((rv = nng_socket_set_int(b->push, NNG_OPT_SENDBUF, d + g)) != 0) vf_harness_fail("sendbuf");
+			pre = bp_fill(b, &r, d);
+			if ((rv = nng_socket_set_int(b->push, NNG_OPT_SENDBUF, d)) != 0) vf_harness_fail("sendbuf");
+			vf_stat("bp_shrink_to_fit", 1);
+			vf_class("bp/shrink-to-fit/depth%d+%d", d, g);
+		}
+		accepted[d] = pre + bp_fill(b, &r, d + 64);
 		int total_acc = accepted[d];
 		if (incr) {
 			// grow the (full) buffer in place: exactly the added room is accepted
